@@ -3315,7 +3315,12 @@ inline url url_from_file_path(StrT&& str, file_path_format format = file_path_fo
 
     // make URL
     detail::append_utf8_percent_encoded(pointer, last, *no_encode_set, str_url);
-    return url(str_url);
+    url file_url(str_url);
+    // The host parser can map a UNC server name to "." (for example U+3002); path_from_file_url
+    // rejects such URL, because "\\.\" means Win32 device namespace
+    if (file_url.hostname() == ".")
+        throw url_error(validation_errc::file_unsupported_path, "Unsupported file path");
+    return file_url;
 }
 
 /// @brief Get OS path from file URL
